@@ -314,3 +314,49 @@ Proof.
   - exact S2.
   - apply NoDup_Permutation; auto.
 Qed.
+
+(* ---- two strictly sorted enumerations of nested sets: the smaller is a subsequence of the larger ---- *)
+Inductive subseq {A} : list A -> list A -> Prop :=
+| sub_nil l : subseq [] l
+| sub_skip x l1 l2 : subseq l1 l2 -> subseq l1 (x :: l2)
+| sub_take x l1 l2 : subseq l1 l2 -> subseq (x :: l1) (x :: l2).
+
+Lemma sorted_incl_subseq {A} (R : A -> A -> Prop) (l1 l2 : list A) :
+  (forall a b, In a l2 -> In b l2 -> R a b -> ~ R b a) ->
+  (forall a, In a l2 -> ~ R a a) ->
+  StronglySorted R l1 -> StronglySorted R l2 -> incl l1 l2 -> subseq l1 l2.
+Proof.
+  intros Asym Irr. revert l1. induction l2 as [|y l2 IH]; intros l1 S1 S2 Hin.
+  - destruct l1 as [|x l1]; [constructor|]. destruct (Hin x (or_introl eq_refl)).
+  - destruct l1 as [|x l1]; [constructor|].
+    inversion S1 as [|? ? S1' Hx]; subst. inversion S2 as [|? ? S2' Hy]; subst.
+    rewrite Forall_forall in Hx, Hy.
+    assert (Asym' : forall a b, In a l2 -> In b l2 -> R a b -> ~ R b a) by (intros; apply Asym; auto; now right).
+    assert (Irr' : forall a, In a l2 -> ~ R a a) by (intros; apply Irr; now right).
+    destruct (Hin x (or_introl eq_refl)) as [E|Hx2].
+    + subst y. apply sub_take. apply IH; auto. intros z Hz. destruct (Hin z (or_intror Hz)) as [E|?]; [|assumption].
+      exfalso. subst z. apply (Irr x (or_introl eq_refl)). now apply Hx.
+    + apply sub_skip. apply IH; auto. intros z Hz. destruct (Hin z Hz) as [E|?]; [|assumption].
+      exfalso. subst z. destruct Hz as [E|Hz].
+      * subst x. apply (Irr y (or_introl eq_refl)). now apply Hy.
+      * specialize (Hx y Hz). specialize (Hy x Hx2). apply (Asym y x); auto; [now left|now right].
+Qed.
+
+Theorem values_subsequence U l l' v v' :
+  univ_ok U -> linv U l -> linv U l' -> times_ok l' ->
+  (forall k e, In (k, e) (l_entries l) -> In (k, e) (l_entries l')) ->
+  (forall k e, In (k, e) v <-> In (k, e) (l_entries l)) ->
+  (forall k e, In (k, e) v' <-> In (k, e) (l_entries l')) ->
+  StronglySorted (fun a b => gt SHash b a) (oslice v) ->
+  StronglySorted (fun a b => gt SHash b a) (oslice v') ->
+  subseq (oslice v) (oslice v').
+Proof.
+  intros UO I I' TO Sub B B' S S'.
+  assert (PP : forall e, In e (oslice v') -> P (l_entries l') e).
+  { intros e He. apply In_oslice in He. destruct He as [k He]. apply B' in He.
+    pose proof (linv_well_keyed _ _ I' _ _ He). subst k. exact He. }
+  apply (sorted_incl_subseq (fun a b => gt SHash b a)); auto.
+  - intros a b Ha Hb G. apply (gt_asym (l_entries l') SHash (h_irrefl l' TO) (h_trans l' TO)); auto.
+  - intros a Ha G. unfold gt in G. rewrite (h_irrefl l' TO a (PP a Ha)) in G. discriminate.
+  - intros e He. apply In_oslice in He. destruct He as [k He]. apply In_oslice. exists k. apply B'. apply Sub. now apply B.
+Qed.
